@@ -22,8 +22,10 @@ CHECKS = {
           "The statement productions themselves (dangling else, loop bodies, labels) are covered by correspondence and oracle.", "Coq kernel-computed theorems on the parser model + correspondence + statement oracle", "6/C05"),
  "C06": P("Proof (Coq), partial: lexing terminates within |text|+1 iterations for every text; the four crash classes found (and repaired by fix: commits) are kernel-computed theorems on the model. No-crash for the whole parser is not proved: it is explored exhaustively (all <= 2 / <= 3 token-class sequences after 7 prefixes, mutants, noise) with the exception class and message compared between model and implementation.",
           "RecursionError is the tolerated escape (model: fuel).", "Coq proof (lexer termination) + exhaustive short-sequence correspondence and outcome classification", "6/C06"),
- "C07": P("Proof (Coq), partial: the generator's precedence_map (regenerated) mirrors the parser's table operator by operator and both equal C99's levels. The round trip parse.generate.parse = parse and second-generation equality are decided by the direct oracle on generated programs, accepted mutants and the corpus, both generator configurations.",
-          "CGenerator's visit_* methods are not modelled in Coq at this commit.", "Coq table theorems + round-trip oracle on the implementation", "6/C07"),
+ "C07": P("Proof (Coq): CGenerator is modelled in Coq (every visit_* method, tied text-exactly); for ALL ASTs the generated text does not depend on coordinates (parametricity); the generator's precedence_map (regenerated) mirrors the parser's table operator by operator and both equal C99's levels; kernel-computed round trips parse.generate.parse = parse (both configurations) on the whole model and refutation witnesses for two known findings. The round trip for all programs parse.generate.parse = parse and second-generation equality are decided by the direct oracle on generated programs, accepted mutants and the corpus, both generator configurations.",
+          "The unbounded round-trip theorem (gen_expr_renders + parse_render) is not proved; the round trip for all programs is decided by the oracle.", "Coq table theorems + round-trip oracle on the implementation", "6/C07"),
+ "C08": P("Proof (Coq), partial: about the generator model (every visit_* method, tied text-exactly to CGenerator): coordinate independence for all ASTs (parametricity), the mirrored precedence tables, kernel-computed exact regenerations of characteristic programs (every specifier, declarator, operator and statement token present once, in order) and refutation witnesses for the two known AST-ambiguity findings. Compiler equivalence itself is decided by the direct oracle: gcc -S of original vs regenerated text on type-correct programs from a semantic generator and on the corpus, both generator configurations.",
+          "gcc is outside any model: `compiles to exactly the same code` is executed, not proved.", "Coq theorems on the generator model + gcc -S equality oracle", "6/C08"),
  "C09": P("Proof (Coq): progress of every token() iteration, termination within |text|+1 iterations, losslessness (segments concatenate to the input, every non-blank segment produces a token or an error, token spelling = consumed characters), longest match among fixed tokens and regex-vs-punctuator choice, for all strings; table theorems are recomputed on the tables regenerated from c_lexer.py. The hand-written lexer model is tied to CLexer by differential correspondence (exhaustive short strings, class-alphabet strings, rendered token sequences with directives).",
           "Python re = backtracking priority semantics for the opcode subset (tested each run). Column/line exactness: theorems for _match_token and blank/newline steps under the state-agreement invariant (C09_token_position); directive lines (#line re-basing) are covered by the round-trip oracle and correspondence.", "Coq proof over regenerated lexer tables + model/code correspondence", "6/C09"),
  "C10": P("Proof (Coq), partial: no rule matches the empty string; the order-sensitive facts of the regenerated rule table; every error rule has a message; constant typing (multi-character constants are int; suffix-free spellings are int; suffix forms by computation). The iff between well-formed C99 literals and literal tokens is explored exhaustively over all strings up to length 4/5 of a 24-character alphabet against an independent literal grammar, with the lexer model and the master regex tied by correspondence.",
@@ -40,7 +42,7 @@ CHECKS = {
           "CPython's pickle/copy/eval are outside the model; the tree-level eval(repr(t)) = t is not yet proved (string level is).", "Coq table theorems + repr correspondence + round-trip oracle", "6/C15"),
  "C16": P("Proof (Coq), partial: the lexer's loop runs at most |text|+1 times; exponential growth of the nested compound-literal family is established by kernel-computed token-read counts on the model (k=1..6), linear families double exactly. The token-read counter of model and implementation must be equal on every input (correspondence); 25 scalable families are checked for at most doubling; lexer regex families under a wall-clock margin.",
           "sre's own cost is outside the model.", "Coq kernel-computed cost witnesses + counter correspondence + growth oracle", "6/C16"),
- "C17": P("Proof (Coq): for all inputs the whole parser model commutes with every renaming of positions and file names, hence two item sequences with the same kinds and spellings give the same outcome with provenance erased (parametricity). Layout variants and redundant parentheses are explored on the implementation, model tied by correspondence.",
+ "C17": P("Proof (Coq): for all inputs the whole parser model commutes with every renaming of positions and file names, hence two item sequences with the same kinds and spellings give the same outcome with provenance erased (parametricity); and two ASTs that differ only in coordinates generate the same text (parametricity of the generator model). Layout variants and redundant parentheses are explored on the implementation, model tied by correspondence.",
           "That the lexer yields the same kinds/spellings for two layouts is C09's (round-trip oracle, correspondence).", "Coq parametricity theorem on the whole parser model + layout-variant oracle", "6/C17"),
  "C18": P("Proof (Coq): for ALL inputs, if parse() succeeds on the whole-parser model then every item the lexer produced was a token (no illegal character, malformed literal, comment or bad directive was reported and skipped) and every token was delivered - one invariant argument over all 71 mutually recursive productions and every helper (parse_ok_all_tokens, parse_ok_no_lexer_error); an error item cannot be skipped at delivery (ParseError at exactly its position); a character that starts no token becomes an Illegal-character item at its line and column; kernel-computed rejections for the malformed classes. Single-bracket mutants, non-token injections and all unbalanced bracket strings (length <= 4/6) in three contexts are explored, model tied by correspondence.",
           "parse = Ok implies balanced brackets is not yet proved for the whole grammar.", "Coq lemmas + kernel-computed witnesses + exhaustive bracket-mutant oracle", "6/C18"),
@@ -48,7 +50,7 @@ CHECKS = {
           "cpp and the header files are outside any model; subsets/orders tested only.", "Coq theorems about the glue + exhaustive header sweep", "6/C19"),
 }
 
-NOT_APPLICABLE = {"C08": "the oracle of this property is an external C compiler's semantics (equality of gcc -S output), which no executable Gallina model available here can express (no C semantics library is installed); the only provable part - token preservation through CGenerator - needs a Coq model of the generator that is not built at this commit, so no proof-based claim is made (see DESIGN.md section 9)"}
+NOT_APPLICABLE = {}
 
 def main():
     checks = []
